@@ -11,8 +11,10 @@ closed forms are exactly this semantics.
 `Exec ls s o` — "some execution of statement `s` (immediately labelled by the labels `ls`) ends with outcome `o`".
 Divergence is the absence of a derivation.  The abstractions built in:
 
-* **expressions** (`Eval`): evaluating an expression tree completes normally, or throws if `Kids.mayThrow`;
-  function expressions are values — their bodies are *not* executed;
+* **expressions** (`EvalKids`): an expression tree is evaluated in order; a node completes normally or, unless it is a
+  bare identifier or `this`, throws; function expressions are values — their bodies are *not* executed; a statement
+  nested directly in an expression (`with` body, class static block) executes, and an abrupt outcome of it ends the
+  evaluation (case tests and catch parameters are only looked at through `Kids.mayThrow`);
 * **conditions are opaque**: an `if`/loop test may go either way — except tests known to be true (`testTrue`), which
   are true and cannot throw; a `for` without a test never leaves by its test; a `for-in/of` may stop after any
   number of rounds and binding the next item (`left`) may throw;
@@ -69,46 +71,51 @@ def Cases.hasDefault : Cases → Bool
   | .nil => false
   | .cons _ isDefault _ _ r => isDefault || r.hasDefault
 
-/-- evaluating expressions -/
-inductive Eval : Kids → Outcome → Prop
-  | normal (ks : Kids) : Eval ks .normal
-  | thr (ks : Kids) : ks.mayThrow = true → Eval ks .thr
+/-- for reaching the test of a `do-while` / the update of a `for`: the body goes round (any `continue`, labelled or not,
+is taken to target this loop — reachability carries no label context) -/
+def Outcome.goesRoundAny : Outcome → Bool
+  | .normal => true
+  | .cont _ => true
+  | _ => false
 
 mutual
 inductive Exec : List Id → Stmt → Outcome → Prop
-  -- expression / declaration / other simple statements
-  | simple {ls p t kids o} : Eval kids o → Exec ls (.simple p t kids) o
+  -- expression / declaration / `with` statements: evaluate the kids
+  | simple {ls p t kids o} : EvalKids kids o → Exec ls (.simple p t kids) o
   | block {ls p body o} : ExecList body o → Exec ls (.block p body) o
   -- if
-  | if_testThrows {ls p test c alt} : Eval test .thr → Exec ls (.ifS p test c alt) .thr
-  | if_then {ls p test c alt o} : Exec [] c o → Exec ls (.ifS p test c alt) o
-  | if_skip {ls p test c} : Exec ls (.ifS p test c none) .normal
-  | if_else {ls p test c a o} : Exec [] a o → Exec ls (.ifS p test c (some a)) o
+  | if_testAbrupt {ls p test c alt o} : EvalKids test o → o ≠ .normal → Exec ls (.ifS p test c alt) o
+  | if_then {ls p test c alt o} : EvalKids test .normal → Exec [] c o → Exec ls (.ifS p test c alt) o
+  | if_skip {ls p test c} : EvalKids test .normal → Exec ls (.ifS p test c none) .normal
+  | if_else {ls p test c a o} : EvalKids test .normal → Exec [] a o → Exec ls (.ifS p test c (some a)) o
   -- while
-  | while_testThrows {ls p test body} : Eval test .thr → Exec ls (.whileS p test false body) .thr
-  | while_done {ls p test body} : Exec ls (.whileS p test false body) .normal
-  | while_exit {ls p test tt body o o'} : Exec [] body o → o.exitsLoop ls = some o' → Exec ls (.whileS p test tt body) o'
-  | while_again {ls p test tt body o o'} : Exec [] body o → o.continuesLoop ls = true →
+  | while_testAbrupt {ls p test tt body o} : EvalTest tt test o → o ≠ .normal → Exec ls (.whileS p test tt body) o
+  | while_done {ls p test body} : EvalTest false test .normal → Exec ls (.whileS p test false body) .normal
+  | while_exit {ls p test tt body o o'} : EvalTest tt test .normal → Exec [] body o → o.exitsLoop ls = some o' →
+      Exec ls (.whileS p test tt body) o'
+  | while_again {ls p test tt body o o'} : EvalTest tt test .normal → Exec [] body o → o.continuesLoop ls = true →
       Exec ls (.whileS p test tt body) o' → Exec ls (.whileS p test tt body) o'
   -- do-while
   | do_exit {ls p body test tt o o'} : Exec [] body o → o.exitsLoop ls = some o' → Exec ls (.doWhileS p body test tt) o'
-  | do_testThrows {ls p body test o} : Exec [] body o → o.continuesLoop ls = true → Eval test .thr →
-      Exec ls (.doWhileS p body test false) .thr
-  | do_done {ls p body test o} : Exec [] body o → o.continuesLoop ls = true → Exec ls (.doWhileS p body test false) .normal
-  | do_again {ls p body test tt o o'} : Exec [] body o → o.continuesLoop ls = true →
+  | do_testAbrupt {ls p body test tt o o'} : Exec [] body o → o.continuesLoop ls = true → EvalTest tt test o' → o' ≠ .normal →
+      Exec ls (.doWhileS p body test tt) o'
+  | do_done {ls p body test o} : Exec [] body o → o.continuesLoop ls = true → EvalTest false test .normal →
+      Exec ls (.doWhileS p body test false) .normal
+  | do_again {ls p body test tt o o'} : Exec [] body o → o.continuesLoop ls = true → EvalTest tt test .normal →
       Exec ls (.doWhileS p body test tt) o' → Exec ls (.doWhileS p body test tt) o'
   -- for: the initialiser once, then the loop
-  | for_initThrows {ls p init update test hasTest tt body} : Eval init .thr → Exec ls (.forS p init update test hasTest tt body) .thr
-  | for_loop {ls p init update test hasTest tt body o} : ExecFor ls update test hasTest tt body o →
+  | for_initAbrupt {ls p init update test hasTest tt body o} : EvalKids init o → o ≠ .normal →
+      Exec ls (.forS p init update test hasTest tt body) o
+  | for_loop {ls p init update test hasTest tt body o} : EvalKids init .normal → ExecFor ls update test hasTest tt body o →
       Exec ls (.forS p init update test hasTest tt body) o
   -- for-in / for-of: the iterated expression once, then the loop
-  | forIn_rightThrows {ls p left right body} : Eval right .thr → Exec ls (.forInOf p left right body) .thr
-  | forIn_loop {ls p left right body o} : ExecForIn ls left body o → Exec ls (.forInOf p left right body) o
+  | forIn_rightAbrupt {ls p left right body o} : EvalKids right o → o ≠ .normal → Exec ls (.forInOf p left right body) o
+  | forIn_loop {ls p left right body o} : EvalKids right .normal → ExecForIn ls left body o → Exec ls (.forInOf p left right body) o
   -- switch
-  | switch_discThrows {ls p disc cases} : Eval disc .thr → Exec ls (.switchS p disc cases) .thr
-  | switch_testThrows {ls p disc cases} : cases.testsMayThrow = true → Exec ls (.switchS p disc cases) .thr
-  | switch_noMatch {ls p disc cases} : cases.hasDefault = false → Exec ls (.switchS p disc cases) .normal
-  | switch_enter {ls p disc cases o} : ExecCases cases o → Exec ls (.switchS p disc cases) o.leavesSwitch
+  | switch_discAbrupt {ls p disc cases o} : EvalKids disc o → o ≠ .normal → Exec ls (.switchS p disc cases) o
+  | switch_testThrows {ls p disc cases} : EvalKids disc .normal → cases.testsMayThrow = true → Exec ls (.switchS p disc cases) .thr
+  | switch_noMatch {ls p disc cases} : EvalKids disc .normal → cases.hasDefault = false → Exec ls (.switchS p disc cases) .normal
+  | switch_enter {ls p disc cases o} : EvalKids disc .normal → ExecCases cases o → Exec ls (.switchS p disc cases) o.leavesSwitch
   -- try
   | try_noFinally {ls p bp block hh cp ck fp fin o} : ExecTryCatch block hh ck o →
       Exec ls (.tryS p bp block hh cp ck false fp fin) o
@@ -123,29 +130,51 @@ inductive Exec : List Id → Stmt → Outcome → Prop
   -- jumps
   | brk {ls p l} : Exec ls (.brk p l) (.brk l)
   | cont {ls p l} : Exec ls (.cont p l) (.cont l)
-  | ret_argThrows {ls p arg} : Eval arg .thr → Exec ls (.ret p arg) .thr
-  | ret {ls p arg} : Exec ls (.ret p arg) .ret
-  | throw {ls p arg} : Exec ls (.throw p arg) .thr
+  | ret_argAbrupt {ls p arg o} : EvalKids arg o → o ≠ .normal → Exec ls (.ret p arg) o
+  | ret {ls p arg} : EvalKids arg .normal → Exec ls (.ret p arg) .ret
+  | throw_argAbrupt {ls p arg o} : EvalKids arg o → o ≠ .normal → Exec ls (.throw p arg) o
+  | throw {ls p arg} : EvalKids arg .normal → Exec ls (.throw p arg) .thr
 /-- a statement list: in order, until one does not complete normally -/
 inductive ExecList : Stmts → Outcome → Prop
   | nil : ExecList .nil .normal
   | stop {s r o} : Exec [] s o → o ≠ .normal → ExecList (.cons s r) o
   | next {s r o} : Exec [] s .normal → ExecList r o → ExecList (.cons s r) o
+/-- evaluating one node of an expression tree: its sub-expressions in order, then the node itself (anything but a bare
+identifier or `this` may throw); a function scope is a value; a statement nested directly in the expression (`with`
+body, class static block) executes -/
+inductive EvalKid : Kid → Outcome → Prop
+  | sub {e ks o} : EvalKids ks o → o ≠ .normal → EvalKid (.expr e ks) o
+  | expr {e ks} : EvalKids ks .normal → EvalKid (.expr e ks) .normal
+  | exprThrows {ks} : EvalKids ks .normal → EvalKid (.expr .other ks) .thr
+  | fnScope {p ks} : EvalKid (.fnScope p ks) .normal
+  | block {p body o} : ExecList body o → EvalKid (.block p body) o
+  | stmt {s o} : Exec [] s o → EvalKid (.stmt s) o
+/-- evaluating expressions in order, until one does not complete normally -/
+inductive EvalKids : Kids → Outcome → Prop
+  | nil : EvalKids .nil .normal
+  | stop {k r o} : EvalKid k o → o ≠ .normal → EvalKids (.cons k r) o
+  | next {k r o} : EvalKid k .normal → EvalKids r o → EvalKids (.cons k r) o
+/-- a loop test: known-true tests are true and cannot throw -/
+inductive EvalTest : Bool → Kids → Outcome → Prop
+  | known {test} : EvalTest true test .normal
+  | eval {test o} : EvalKids test o → EvalTest false test o
 /-- the loop of a `for` statement (after the initialiser): test, body, update -/
 inductive ExecFor : List Id → Kids → Kids → Bool → Bool → Stmt → Outcome → Prop
-  | testThrows {ls update test hasTest body} : Eval test .thr → ExecFor ls update test hasTest false body .thr
-  | done {ls update test body} : ExecFor ls update test true false body .normal
-  | exit {ls update test hasTest tt body o o'} : Exec [] body o → o.exitsLoop ls = some o' → ExecFor ls update test hasTest tt body o'
-  | updateThrows {ls update test hasTest tt body o} : Exec [] body o → o.continuesLoop ls = true → Eval update .thr →
-      ExecFor ls update test hasTest tt body .thr
-  | again {ls update test hasTest tt body o o'} : Exec [] body o → o.continuesLoop ls = true →
-      ExecFor ls update test hasTest tt body o' → ExecFor ls update test hasTest tt body o'
+  | testAbrupt {ls update test hasTest tt body o} : EvalTest tt test o → o ≠ .normal → ExecFor ls update test hasTest tt body o
+  | done {ls update test body} : EvalTest false test .normal → ExecFor ls update test true false body .normal
+  | exit {ls update test hasTest tt body o o'} : EvalTest tt test .normal → Exec [] body o → o.exitsLoop ls = some o' →
+      ExecFor ls update test hasTest tt body o'
+  | updateAbrupt {ls update test hasTest tt body o o'} : EvalTest tt test .normal → Exec [] body o → o.continuesLoop ls = true →
+      EvalKids update o' → o' ≠ .normal → ExecFor ls update test hasTest tt body o'
+  | again {ls update test hasTest tt body o o'} : EvalTest tt test .normal → Exec [] body o → o.continuesLoop ls = true →
+      EvalKids update .normal → ExecFor ls update test hasTest tt body o' → ExecFor ls update test hasTest tt body o'
 /-- the loop of a `for-in/of` statement: bind the next item (if any), body -/
 inductive ExecForIn : List Id → Kids → Stmt → Outcome → Prop
-  | done {ls left body} : ExecForIn ls left body .normal
-  | leftThrows {ls left body} : Eval left .thr → ExecForIn ls left body .thr
-  | exit {ls left body o o'} : Exec [] body o → o.exitsLoop ls = some o' → ExecForIn ls left body o'
-  | again {ls left body o o'} : Exec [] body o → o.continuesLoop ls = true → ExecForIn ls left body o' → ExecForIn ls left body o'
+  | leftAbrupt {ls left body o} : EvalKids left o → o ≠ .normal → ExecForIn ls left body o
+  | done {ls left body} : EvalKids left .normal → ExecForIn ls left body .normal
+  | exit {ls left body o o'} : EvalKids left .normal → Exec [] body o → o.exitsLoop ls = some o' → ExecForIn ls left body o'
+  | again {ls left body o o'} : EvalKids left .normal → Exec [] body o → o.continuesLoop ls = true →
+      ExecForIn ls left body o' → ExecForIn ls left body o'
 /-- enter the cases at some case -/
 inductive ExecCases : Cases → Outcome → Prop
   | here {p d t body r o} : ExecFall (.cons p d t body r) o → ExecCases (.cons p d t body r) o
@@ -160,7 +189,7 @@ inductive ExecTryCatch : Stmts → Bool → Kids → Outcome → Prop
   | noThrow {block hh ck o} : ExecList block o → o ≠ .thr → ExecTryCatch block hh ck o
   | uncaught {block ck} : ExecList block .thr → ExecTryCatch block false ck .thr
   | caught {block ck o} : ExecList block .thr → ExecCatch ck o → ExecTryCatch block true ck o
-/-- the catch clause: the parameter patterns, then the body block -/
+/-- the catch clause: the parameter patterns (may throw if `Kid.mayThrow`), then the body block -/
 inductive ExecCatch : Kids → Outcome → Prop
   | nil : ExecCatch .nil .normal
   | paramThrows {k r} : k.isBlock = false → k.mayThrow = true → ExecCatch (.cons k r) .thr
@@ -172,32 +201,58 @@ end
 mutual
 inductive Reaches : Stmt → Nat → Prop
   | self (s : Stmt) : Reaches s s.pos
+  | simple_kids {q t kids p} : ReachesKids kids p → Reaches (.simple q t kids) p
   | block {q body p} : ReachesList body p → Reaches (.block q body) p
-  | if_then {q test c alt p} : Eval test .normal → Reaches c p → Reaches (.ifS q test c alt) p
-  | if_else {q test c a p} : Eval test .normal → Reaches a p → Reaches (.ifS q test c (some a)) p
-  | while_body {q test tt body p} : Reaches body p → Reaches (.whileS q test tt body) p
+  | if_test {q test c alt p} : ReachesKids test p → Reaches (.ifS q test c alt) p
+  | if_then {q test c alt p} : EvalKids test .normal → Reaches c p → Reaches (.ifS q test c alt) p
+  | if_else {q test c a p} : EvalKids test .normal → Reaches a p → Reaches (.ifS q test c (some a)) p
+  | while_test {q test tt body p} : ReachesKids test p → Reaches (.whileS q test tt body) p
+  | while_body {q test tt body p} : EvalTest tt test .normal → Reaches body p → Reaches (.whileS q test tt body) p
   | do_body {q body test tt p} : Reaches body p → Reaches (.doWhileS q body test tt) p
-  | for_body {q init update test hasTest tt body p} : Reaches body p → Reaches (.forS q init update test hasTest tt body) p
-  | forIn_body {q left right body p} : Reaches body p → Reaches (.forInOf q left right body) p
-  | switch {q disc cases p} : ReachesCases cases p → Reaches (.switchS q disc cases) p
+  | do_test {q body test tt o p} : Exec [] body o → o.goesRoundAny = true → ReachesKids test p → Reaches (.doWhileS q body test tt) p
+  | for_init {q init update test hasTest tt body p} : ReachesKids init p → Reaches (.forS q init update test hasTest tt body) p
+  | for_test {q init update test hasTest tt body p} : EvalKids init .normal → ReachesKids test p →
+      Reaches (.forS q init update test hasTest tt body) p
+  | for_body {q init update test hasTest tt body p} : EvalKids init .normal → EvalTest tt test .normal → Reaches body p →
+      Reaches (.forS q init update test hasTest tt body) p
+  | for_update {q init update test hasTest tt body o p} : EvalKids init .normal → EvalTest tt test .normal → Exec [] body o →
+      o.goesRoundAny = true → ReachesKids update p → Reaches (.forS q init update test hasTest tt body) p
+  | forIn_right {q left right body p} : ReachesKids right p → Reaches (.forInOf q left right body) p
+  | forIn_left {q left right body p} : EvalKids right .normal → ReachesKids left p → Reaches (.forInOf q left right body) p
+  | forIn_body {q left right body p} : EvalKids right .normal → EvalKids left .normal → Reaches body p →
+      Reaches (.forInOf q left right body) p
+  | switch_disc {q disc cases p} : ReachesKids disc p → Reaches (.switchS q disc cases) p
+  | switch {q disc cases p} : EvalKids disc .normal → ReachesCases cases p → Reaches (.switchS q disc cases) p
   | try_block {q bp block hh cp ck hf fp fin p} : ReachesList block p → Reaches (.tryS q bp block hh cp ck hf fp fin) p
   | try_handler {q bp block cp ck hf fp fin p} : ExecList block .thr → ReachesCatch ck p →
       Reaches (.tryS q bp block true cp ck hf fp fin) p
   | try_finalizer {q bp block hh cp ck fp fin o p} : ExecTryCatch block hh ck o → ReachesList fin p →
       Reaches (.tryS q bp block hh cp ck true fp fin) p
   | labeled {q l body p} : Reaches body p → Reaches (.labeled q l body) p
+  | ret_arg {q arg p} : ReachesKids arg p → Reaches (.ret q arg) p
+  | throw_arg {q arg p} : ReachesKids arg p → Reaches (.throw q arg) p
 inductive ReachesList : Stmts → Nat → Prop
   | head {s r p} : Reaches s p → ReachesList (.cons s r) p
   | tail {s r p} : Exec [] s .normal → ReachesList r p → ReachesList (.cons s r) p
-/-- every case can be entered directly -/
+/-- every case can be entered directly; any case test may be evaluated -/
 inductive ReachesCases : Cases → Nat → Prop
   | clause {q d t body r} : ReachesCases (.cons q d t body r) q
+  | test {q d t body r p} : ReachesKids t p → ReachesCases (.cons q d t body r) p
   | body {q d t body r p} : ReachesList body p → ReachesCases (.cons q d t body r) p
   | later {q d t body r p} : ReachesCases r p → ReachesCases (.cons q d t body r) p
 inductive ReachesCatch : Kids → Nat → Prop
   | bodyBlock {q body r} : ReachesCatch (.cons (.block q body) r) q
   | body {q body r p} : ReachesList body p → ReachesCatch (.cons (.block q body) r) p
   | param {k r p} : k.isBlock = false → ReachesCatch r p → ReachesCatch (.cons k r) p
+/-- the statements nested directly in an expression tree, reached in evaluation order -/
+inductive ReachesKid : Kid → Nat → Prop
+  | expr {e ks p} : ReachesKids ks p → ReachesKid (.expr e ks) p
+  | blockPos {q body} : ReachesKid (.block q body) q
+  | block {q body p} : ReachesList body p → ReachesKid (.block q body) p
+  | stmt {s p} : Reaches s p → ReachesKid (.stmt s) p
+inductive ReachesKids : Kids → Nat → Prop
+  | head {k r p} : ReachesKid k p → ReachesKids (.cons k r) p
+  | tail {k r p} : EvalKid k .normal → ReachesKids r p → ReachesKids (.cons k r) p
 end
 
 end DL.CF
@@ -208,6 +263,7 @@ namespace DL.CF
 inductive ReachesItems : List Item → Nat → Prop
   | here {s r p} : Reaches s p → ReachesItems (.stmt s :: r) p
   | next {s r p} : Exec [] s .normal → ReachesItems r p → ReachesItems (.stmt s :: r) p
-  | skipDecl {kids r p} : ReachesItems r p → ReachesItems (.decl kids :: r) p
+  | decl {kids r p} : ReachesKids kids p → ReachesItems (.decl kids :: r) p
+  | skipDecl {kids r p} : EvalKids kids .normal → ReachesItems r p → ReachesItems (.decl kids :: r) p
 
 end DL.CF
